@@ -32,9 +32,18 @@ type c11Maps struct {
 	m     map[string]*models.PortMapping
 	order []string
 	n     int
+	stall time.Duration // the next read takes this long (a slow storage round trip), once
+}
+
+func (c *c11Maps) slow() {
+	if d := c.stall; d > 0 {
+		c.stall = 0
+		time.Sleep(d)
+	}
 }
 
 func (c *c11Maps) GetPortMapping(id string) (*models.PortMapping, error) {
+	c.slow()
 	if mp, ok := c.m[id]; ok {
 		cp := *mp
 		return &cp, nil
@@ -60,6 +69,7 @@ func (c *c11Maps) DeletePortMapping(id string) error {
 	return nil
 }
 func (c *c11Maps) GetClientPortMappings(key string) ([]*models.PortMapping, error) {
+	c.slow()
 	var out []*models.PortMapping
 	for _, id := range c.order {
 		mp, ok := c.m[id]
@@ -494,12 +504,25 @@ func Harness_C11_sequence() {
 	if ct == packet.MappingGet && verif_Bool() {
 		first = connB // the other party of the mapping
 	}
-	r1 := send(first, "cmd-1")
-	if ct == packet.MappingGet {
-		verif_Assert("C11.seq.party_served", r1.success && r1.has("pm1"))
+	late := false
+	if (ct == packet.MappingGet || ct == packet.MappingList) && verif_Bool() {
+		// the first command's storage read outlasts the executor's reply timeout: the dispatcher gives
+		// up on it, and its handler finishes only after the next command has been dispatched - its
+		// late reply must still go to its own connection
+		late = true
+		w.maps.stall = 31 * time.Second
+		w.sm.HandlePacket(&types.StreamPacket{ConnectionID: first.id, Timestamp: time.Now(), Packet: &packet.TransferPacket{PacketType: packet.JsonCommand,
+			CommandPacket: &packet.CommandPacket{CommandType: ct, CommandId: "cmd-1", CommandBody: string(bodyJSON)}}})
+		verif_Assert("C11.seq.setup.stalled", w.maps.stall == 0)
+		verif_Cover("C11.seq.late_handler")
+	} else {
+		r1 := send(first, "cmd-1")
+		if ct == packet.MappingGet {
+			verif_Assert("C11.seq.party_served", r1.success && r1.has("pm1"))
+		}
+		// a moment later (well inside any short-lived cache) somebody else asks the same
+		verif_ClockSet(int64(1)<<60 + int64(verif_Byte())*int64(10*time.Millisecond))
 	}
-	// a moment later (well inside any short-lived cache) somebody else asks the same
-	verif_ClockSet(int64(1)<<60 + int64(verif_Byte())*int64(10*time.Millisecond))
 	var second *c03RW
 	if verif_Bool() {
 		second = connS
@@ -507,7 +530,14 @@ func Harness_C11_sequence() {
 		second, _ = w.newConn(0)
 		verif_Quiesce()
 	}
+	from2 := len(second.Out.Buf)
 	r2 := send(second, "cmd-2")
+	if late {
+		// let the stalled handler of the first command finish (its storage read returns after 31 s)
+		time.Sleep(time.Minute)
+		verif_Quiesce()
+		r2 = w.seen(second, from2)
+	}
 	verif_Assert("C11.seq.mapping_not_disclosed", !r2.has("pm1"))
 	verif_Assert("C11.seq.code_not_disclosed", !r2.has(code.Code))
 	verif_Assert("C11.seq.domain_not_disclosed", !r2.has(dom.ID) && !r2.has("app.t.net"))
